@@ -205,7 +205,7 @@ func (s *OffSel) resolveInto(m *Model, dir string, set map[int64]bool) {
 			k = 0
 		}
 		lo := bases[k]
-		hi := int64(1<<62)
+		hi := int64(1 << 62)
 		if k+1 < len(bases) {
 			hi = bases[k+1]
 		}
